@@ -51,7 +51,7 @@ static ctx_handler_t handlers[NH] = { h0, h1, h2, h3, h4, h5, h6, h7 };
 
 /* ------------------------------------------------------------------ registered contexts (mirror) */
 typedef struct { int id; unsigned long state; } lvl_t;
-static lvl_t stk[600];
+static lvl_t stk[600], stk_save[600];
 static int depth;               /* index of the innermost level; level 0 = null context */
 #define MAXCTX 256
 static char ctxname[MAXCTX][24];
@@ -76,6 +76,7 @@ void conf_register(int count, int override_null)
 static int ref_max_depth, ref_include_depth, ref_max_include;
 static int ref_open_idx;        /* number of fopen attempts so far (fault script cursor) */
 static const op_t *ref_faults;
+static int ref_deliver_unterminated;
 static int ref_unknown, ref_surplus_end, ref_eof_nonl, ref_include_fail, ref_overlong, ref_unreadable, ref_empty_file;
 
 static unsigned long ref_call(int id, int kind, const char *text, unsigned long sin)
@@ -181,7 +182,7 @@ static void ref_file(const char *path, int is_root)
             if (strncasecmp(line, "<simrun-", 8)) { ref_include_fail++; if (!is_root) ref_include_depth--; return; }   /* no magic: file rejected */
             continue;
         }
-        if (!nl) { ref_eof_nonl++; break; }              /* last line without newline: reported as too long and skipped */
+        if (!nl) { ref_eof_nonl++; if (!ref_deliver_unterminated) break; }    /* last line without a newline: whether it counts as a line is left open (both readings are accepted, consistently per parse) */
         ref_line(line);
     }
     if (!is_root) ref_include_depth--;
@@ -265,21 +266,37 @@ uint64_t conf_trace_digest(int from)
 int conf_trace_count(void) { return ngot; }
 void conf_set_index_checks(int on) { check_indices = on; }
 
-static void compare_traces(const char *when)
+static int compare_quiet;
+static int compare_traces(const char *when)
 {
     int n = ngot < nwant ? ngot : nwant;
     static const char *kn[] = { "text", "BEGIN", "END" };
     for (int i = 0; i < n; i++) {
         rec_t *g = &got[i], *w = &want[i];
         if (g->h != w->h || g->kind != w->kind)
-            sim_fail("MISMATCH(dispatch)", "%s: handler call #%d went to handler %d as %s \"%.40s\", the reference delivers %s \"%.40s\" to handler %d", when, i, g->h, kn[g->kind], g->kind ? "" : g->text, kn[w->kind], w->kind ? "" : w->text, w->h);
+            { if (compare_quiet) return 0; sim_fail("MISMATCH(dispatch)", "%s: handler call #%d went to handler %d as %s \"%.40s\", the reference delivers %s \"%.40s\" to handler %d", when, i, g->h, kn[g->kind], g->kind ? "" : g->text, kn[w->kind], w->kind ? "" : w->text, w->h); }
         if (g->kind == 0 && (g->tlen != w->tlen || g->thash != w->thash))
-            sim_fail("MISMATCH(line-text)", "%s: handler call #%d received \"%.60s\" (%zu chars), the reference line is \"%.60s\" (%zu chars)", when, i, g->text, g->tlen, w->text, w->tlen);
+            { if (compare_quiet) return 0; sim_fail("MISMATCH(line-text)", "%s: handler call #%d received \"%.60s\" (%zu chars), the reference line is \"%.60s\" (%zu chars)", when, i, g->text, g->tlen, w->text, w->tlen); }
         if (g->sin != w->sin)
-            sim_fail("MISMATCH(state-threading)", "%s: handler call #%d (%s) received state %lu, the state it must receive is %lu", when, i, kn[g->kind], g->sin, w->sin);
+            { if (compare_quiet) return 0; sim_fail("MISMATCH(state-threading)", "%s: handler call #%d (%s) received state %lu, the state it must receive is %lu", when, i, kn[g->kind], g->sin, w->sin); }
     }
-    if (ngot != nwant) sim_fail("MISMATCH(call-count)", "%s: %d handler calls were made, the reference makes %d (first extra/missing: %s \"%.40s\")", when, ngot, nwant,
-                                ngot > nwant ? kn[got[n].kind] : kn[want[n].kind], ngot > nwant ? got[n].text : want[n].text);
+    if (ngot != nwant) { if (compare_quiet) return 0; sim_fail("MISMATCH(call-count)", "%s: %d handler calls were made, the reference makes %d (first extra/missing: %s \"%.40s\")", when, ngot, nwant,
+                                ngot > nwant ? kn[got[n].kind] : kn[want[n].kind], ngot > nwant ? got[n].text : want[n].text); }
+    return 1;
+}
+
+static void run_reference(const char *name, op_t *o, int entry_ctx, int ng, unsigned long tok_at_entry, int deliver)
+{
+    unsigned long keep = tok_counter;
+    ref_deliver_unterminated = deliver;
+    depth = entry_ctx; ref_faults = o; ref_open_idx = 0;
+    ref_max_depth = ref_max_include = ref_include_depth = 0;
+    ref_unknown = ref_surplus_end = ref_eof_nonl = ref_include_fail = ref_unreadable = ref_empty_file = 0;
+    nwant = ng;                      /* align the two traces for a second parse in the same run */
+    for (int q = 0; q < ng; q++) want[q] = got[q];
+    tok_counter = tok_at_entry;
+    ref_file(name, 1);
+    tok_counter = keep;
 }
 
 /* ------------------------------------------------------------------ C09 executor */
@@ -305,22 +322,27 @@ static void exec_c09(const plan_t *p)
             memcpy(name, o->s, o->slen); name[o->slen] = 0;
             entry_ctx = simacc_ctx_depth(); entry_fs = simacc_fstate_depth();
             /* reference first (it only reads the tree), then the real parser */
-            depth = entry_ctx; ref_faults = o; ref_open_idx = 0;
-            ref_max_depth = ref_max_include = ref_include_depth = 0;
-            ref_unknown = ref_surplus_end = ref_eof_nonl = ref_include_fail = ref_unreadable = ref_empty_file = 0;
             {
-                unsigned long save = tok_counter;
+                unsigned long tok_at_entry = tok_counter;
                 int ng = ngot;
-                nwant = ng;                      /* align the two traces for a second parse in the same run */
-                for (int q = 0; q < ng; q++) want[q] = got[q];
-                ref_file(name, 1);
-                tok_counter = save;
+                memcpy(stk_save, stk, sizeof(stk));
+                run_reference(name, o, entry_ctx, ng, tok_at_entry, 0);
+                if (o->a[0]) ret = (char *)spifconf_parse((spif_charptr_t)name, (spif_charptr_t)(o->a[0] == 2 ? "/cfg" : NULL), (spif_charptr_t)"/nonexistent:/cfg:/tmp");
+                else ret = (char *)spifconf_parse((spif_charptr_t)name, NULL, NULL);
+                tr_printf("parse %s -> %s calls=%d", name, ret ? ret : "NULL", ngot);
+                if (ret) sim_free(ret);
+                if (ref_eof_nonl) {
+                    /* a last line without a newline: accepted whether it is delivered or dropped, as long as the parse treats every such line the same way */
+                    compare_quiet = 1;
+                    if (!compare_traces("parse")) {
+                        memcpy(stk, stk_save, sizeof(stk));
+                        run_reference(name, o, entry_ctx, ng, tok_at_entry, 1);
+                        probe_hit("unterminated_last_line_delivered");
+                    }
+                    compare_quiet = 0;
+                }
+                compare_traces("parse");
             }
-            if (o->a[0]) ret = (char *)spifconf_parse((spif_charptr_t)name, (spif_charptr_t)(o->a[0] == 2 ? "/cfg" : NULL), (spif_charptr_t)"/nonexistent:/cfg:/tmp");
-            else ret = (char *)spifconf_parse((spif_charptr_t)name, NULL, NULL);
-            tr_printf("parse %s -> %s calls=%d", name, ret ? ret : "NULL", ngot);
-            if (ret) sim_free(ret);
-            compare_traces("parse");
             balanced = (depth == entry_ctx);
             if (simfd_open_streams()) sim_fail("INVARIANT(files-closed)", "%d config streams are still open after spifconf_parse returned", simfd_open_streams());
             if (simacc_fstate_depth() != entry_fs) sim_fail("INVARIANT(file-stack)", "file stack index is %d after parsing, %d before", simacc_fstate_depth(), entry_fs);
